@@ -16,6 +16,10 @@ def step (op : String) (args : List String) : Option String :=
     let ip ← hexNat? ip; let n ← n.toNat?
     if n > 32 then none else
     pure (keyStr (u32v4Dst (BitVec.ofNat 32 ip) n))
+  | "keep4", [ip, n, ip', n'] => do
+    let ip ← hexNat? ip; let n ← n.toNat?; let ip' ← hexNat? ip'; let n' ← n'.toNat?
+    if n > 32 || n' > 32 then none else
+    pure (if keepsInstalled (BitVec.ofNat 32 ip) n (BitVec.ofNat 32 ip') n' then "keep" else "replace")
   | "u32v6", [w0, w1, w2, w3, n] => do
     let ws ← [w0, w1, w2, w3].mapM hexNat?
     let n ← n.toNat?
